@@ -248,8 +248,16 @@ def campaign(pid: str, mod_name: str, tier: str, master_seed: int, n_runs: int, 
             known_hits.setdefault(kf.get("id", kf.get("what")), (kf, r))
         else:
             new_viol.append(r)
-    for key, (kf, r) in known_hits.items():
-        print(f"KNOWN-FINDING: property={pid} {kf.get('what')}", flush=True)
+    # one line per finding listed for this property (whether or not this campaign's sample ran into it), with how often it was seen
+    hit_counts = {}
+    for r in agg.violations:
+        kf = match_known(pid, (r.get("violations") or [{}])[0], known)
+        if kf is not None:
+            hit_counts[kf.get("id", kf.get("what"))] = hit_counts.get(kf.get("id", kf.get("what")), 0) + 1
+    for kf in known.get("findings", []):
+        if kf.get("property") == pid:
+            n_hit = hit_counts.get(kf.get("id", kf.get("what")), 0)
+            print(f"KNOWN-FINDING: property={pid} {kf.get('what')} [{kf.get('id', '')}: seen in {n_hit} of {agg.results} runs of this campaign]", flush=True)
     for r in new_viol[:3]:
         path = write_replay(pid, r)
         if minimise is not None:
